@@ -410,7 +410,7 @@ def run_both(bdir, cases, tag, shards=None, timeout=3600):
     return result
 
 
-PREFIX = {'GRAPH': 'G', 'UPD': 'U', 'E2E': 'E', 'LAYOUT': 'L', 'WAFF': 'W'}
+PREFIX = {'GRAPH': 'G', 'UPD': 'U', 'E2E': 'E', 'LAYOUT': 'L', 'WAFF': 'W', 'RNG': 'R'}
 
 
 def case_id(line):
@@ -471,3 +471,23 @@ def write_replay(pid, name, payload):
     with open(p, 'w') as f:
         json.dump(payload, f, indent=1, default=str)
     return p
+
+
+# ----------------------------------------------------------------------------- the real command line binary
+def run_cli(bdir, args, cwd, timeout=600):
+    """run the Multitensor binary built from REPO's working tree (sanitized build); returns (rc, output)"""
+    env = dict(os.environ)
+    env.update(SAN_ENV)
+    return sh([os.path.join(bdir, 'Multitensor')] + list(args), cwd=cwd, timeout=timeout, env=env)
+
+
+def snapshot_dir(d):
+    """{relative path: bytes} of a directory tree (missing directory -> None)"""
+    if not os.path.isdir(d):
+        return None
+    out = {}
+    for root, _, fs in os.walk(d):
+        for f in fs:
+            p = os.path.join(root, f)
+            out[os.path.relpath(p, d)] = open(p, 'rb').read()
+    return out
